@@ -165,7 +165,7 @@ CHECKS["C05"] = dict(
              "The same operations are repeated on a grid of 1e-9 (scaled coordinates beyond 32 bits): area identities hold there and each fine-grid area equals the coarse-grid one up to the coarse rounding allowance. "
              "A third run on a grid of 2^-34 with the operands squeezed into |x| < 2^30 and moved to y < -2^30 must give the same areas.",
     note="Trusted: TLC, Base/Region arithmetic. Clipper itself is vendored; the binding is on "
-         "clipper_tools.cpp. Operands from a palette on a 12x12 grid, not arbitrary polygons.",
+         "clipper_tools.cpp. Operands from a palette on a 12x12 grid, not arbitrary polygons. Every case is also run with both operands moved by (-6,-6) on the grid 2^-29 (scaled coordinates between 2^30 and 2^32 in magnitude, difference products beyond 2^64): areas must equal those of the 1e9 grid.",
     design="4 C05")
 
 CHECKS["C12"] = dict(
@@ -181,7 +181,7 @@ CHECKS["C12"] = dict(
          "and outside the bounding box, repeated and empty lists, both axes); hangs are events. "
              "fracture and slice are repeated on a grid of 1e-9 (the precision write_gds passes): the pieces add up to the coarse-grid area and respect the limit; the palette includes corners with mirrored slopes.",
     note="Trusted: TLC, Region.tla. 10 polygon families up to 26 vertices; the GDSII writer's use "
-         "of the vertex limit is not yet re-checked through files.",
+         "of the vertex limit is not yet re-checked through files. Skylines of 442 and 602 vertices walked right-to-left and left-to-right (limits 5, 8) are judged by exact area sum and cover count on sampled cells.",
     design="4 C12")
 CHECKS["C13"] = dict(
     level="model_checking",
@@ -269,7 +269,7 @@ CHECKS["C15"] = dict(
     note="Trusted: TLC, Paths.tla, the harness's distance measuring (sampling + ternary search, "
          "~120 lines). Hobby interpolation only as 'passes through the points'; command strings "
          "are issued through Curve::commands one instruction at a time and as one array; fillets held "
-         "to 2.25 tolerances (round-to-nearest segment count), not to exactness.",
+         "to 2.25 tolerances (round-to-nearest segment count), not to exactness. Histories of polynomial sections are also replayed with each run of one kind issued as one Array call (relative points from the end point before the call): identical vertices and last control point are demanded.",
     design="4 C15")
 
 CHECKS["C07"] = dict(
